@@ -713,6 +713,20 @@ def _source_faithful(ctx, visitor, rel):
                 comp = n.args[0]
             if comp is None:
                 continue
+            # only when the set / sorted value itself goes into the result (a key of the returned record, the return
+            # value); a local set used for membership tests loses nothing
+            par_ = None
+            for x_ in ast.walk(f.node):
+                for ch_ in ast.iter_child_nodes(x_):
+                    if ch_ is n:
+                        par_ = x_
+            into_result = (isinstance(par_, ast.Assign) and any(isinstance(t_, ast.Subscript) for t_ in par_.targets)) \
+                or isinstance(par_, (ast.Return, ast.Dict)) \
+                or (isinstance(par_, ast.Call) and isinstance(par_.func, ast.Name) and par_.func.id in ('sorted', 'list', 'tuple')
+                    and any(isinstance(p2, ast.Assign) and any(isinstance(t_, ast.Subscript) for t_ in p2.targets) and p2.value is par_
+                            for p2 in ast.walk(f.node)))
+            if not into_result:
+                continue
             it = comp.generators[0].iter
             if isinstance(it, ast.Call) and isinstance(it.func, ast.Attribute) and isinstance(it.func.value, ast.Name) \
                     and it.func.value.id == ctxn and not it.args:
